@@ -55,7 +55,7 @@ fn build_bases() -> Vec<Store> {
     let mut out = vec![];
     let specs: [(u8, u16, u8, u32); 3] = [(12, 512, 1, 2000), (16, 512, 2, 12000), (32, 512, 1, 67000)];
     for (fat, bps, spc, total) in specs {
-        let v = VolCfg { source: VolSource::Format, fat, bps, spc, fats: 2, root_entries: 64, total_sectors: total, extra_sectors: 0, ballast_keep: None, ballast_mode: 0, fsinfo_mode: 0, hint: None, status: 0, label: true, tail_taken: 0 };
+        let v = VolCfg { source: VolSource::Format, fat, bps, spc, fats: 2, root_entries: 64, total_sectors: total, extra_sectors: 0, ballast_keep: None, ballast_mode: 0, fsinfo_mode: 0, hint: None, status: 0, label: true, tail_taken: 0, dirty_medium: false };
         let store = crate::vol::format_store(&v).expect("harness: base volume");
         // populate a little through the library
         let st = Rc::new(RefCell::new(DiskState::new(store)));
